@@ -232,7 +232,10 @@ def handle (j : Json) : Json :=
   let nodes : List NodeRec := (jarr (jget j "nodes")).map fun n => { name := jstr (jget n "name"), test := jbool (jget n "test") }
   -- a lapse by TTL first writes the status key with a short lease (a heartbeat), then it expires
   let evs := (jarr (jget j "script")).flatMap fun e =>
-    if jstr (jget e "e") == "lapse" && jstr (jget e "how") == "ttl" then [.heartbeat (jstr (jget e "n")), evtOfJson e] else [evtOfJson e]
+    if jstr (jget e "e") == "lapse" && jstr (jget e "how") == "ttl" then [.heartbeat (jstr (jget e "n")), evtOfJson e]
+    else if jstr (jget e "e") == "failUpdate" then []         -- a failing store.UpdateNodes of SetNode: no effect on the reports
+    else if jstr (jget e "e") == "breakStream" then [.stopWatcher]  -- the stream ends: the watcher gives the key up
+    else [evtOfJson e]
   let s0 : St := { nodes := nodes }
   let fin := run s0 evs
   let implSt := jget (jget j "impl") "status"
@@ -249,7 +252,9 @@ def handle (j : Json) : Json :=
   let lapseAfter := (evs.drop startIdx).any fun e => match e with | .lapse _ => true | _ => false
   let cls := "down:" ++ (if ob.isEmpty then "none" else "marked") ++ (if lapseBefore then "+before" else "") ++
     (if lapseAfter then "+after" else "") ++ (if nodes.any (·.test) then "+test" else "") ++
-    (if hasStandby then "+failover" else "") ++ (if hasBypass then "+bypass" else "")
+    (if hasStandby then "+failover" else "") ++ (if hasBypass then "+bypass" else "") ++
+    (if evs.any (· == .stopWatcher) then "+streambreak" else "") ++
+    (if (jarr (jget j "script")).any (fun e => jstr (jget e "e") == "failUpdate") then "+updatefails" else "")
   verdict id agree (Json.mkObj (modelSt.map fun p => (p.1, Json.str p.2))) viol cls (ob.isEmpty || nlapse == 0 && !lapseBefore && ob.isEmpty)
 
 end NDO
